@@ -281,16 +281,22 @@ def check_totality(ctx, binp):
 covered = []
 
 
-def action_coverage(ctx):
-    """Per-action distinct-state counts from the last -coverage run (kept by
-    re-running is not needed: vlib keeps only statistics, so the coverage run
-    is repeated here on the smallest configuration and parsed)."""
-    res = ctx.tlc("XzLayoutGen", cfg="gen.cfg", data={"gen.cfg": gen_cfg(GEN_QUICK)}, workers=2, timeout=3000, heap="2g",
-                  label="XzLayoutGen coverage", coverage=True)
+GEN_ACTIONS = ["GSHeader", "GBHeader", "GChunk", "GChunkEnd", "GBPad", "GCheck", "GIHead", "GIRec", "GIEnd", "GFooter", "GSPad", "GEof"]
+
+
+def action_coverage(out, need_all=True):
+    """Per-action (distinct, generated) counts from a -coverage 1 run of
+    XzLayoutGen.  Every action of XzLayout must have been taken and no
+    deviant accepted, otherwise the acceptor would be vacuous."""
     acts = {}
-    for m in re.finditer(r"<(\w+) line \d+, col \d+ to line \d+, col \d+ of module XzLayout>: (\d+):(\d+)", res["out"]):
+    for m in re.finditer(r"<(\w+) line \d+, col \d+ to line \d+, col \d+ of module XzLayoutGen>: (\d+):(\d+)", out):
         acts[m.group(1)] = [int(m.group(2)), int(m.group(3))]
-    return [acts]
+    missing = [a for a in GEN_ACTIONS if acts.get(a, [0, 0])[1] == 0]
+    if need_all and missing:
+        raise ToolingError("generator never took: %s" % missing)
+    if acts.get("DevNext", [0, 0])[1] != 0:
+        raise ToolingError("a deviant event was accepted by XzLayout")
+    return {k: v for k, v in acts.items() if k in GEN_ACTIONS or k == "DevNext"}
 
 
 def spec_level(ctx, errors):
@@ -299,20 +305,13 @@ def spec_level(ctx, errors):
         thorough = ctx.tier == "thorough"
         if thorough:
             for k, (name, c) in enumerate(GEN_THOROUGH):
-                ctx.tlc_ok("XzLayoutGen", cfg="gen.cfg", data={"gen.cfg": gen_cfg(c)}, workers=6, timeout=3000, heap="4g",
-                           label="XzLayoutGen generator (%s)" % name, coverage=(k == 0))
+                res = ctx.tlc_ok("XzLayoutGen", cfg="gen.cfg", data={"gen.cfg": gen_cfg(c)}, workers=6, timeout=3000, heap="4g",
+                                 label="XzLayoutGen generator (%s)" % name, coverage=(k == 0))
                 if k == 0:
-                    covered[:] = action_coverage(ctx)
-        else:
-            ctx.tlc_ok("XzLayoutGen", cfg="gen.cfg", data={"gen.cfg": gen_cfg(GEN_QUICK)}, workers=4, timeout=3000, heap="4g",
-                       label="XzLayoutGen generator")
-        # the generator must be able to finish a file with data (non-vacuity)
-        small = dict(GEN_QUICK)
-        small.update(GenMaxChunks=1)
-        res = ctx.tlc("XzLayoutGen", cfg="gen.cfg", data={"gen.cfg": gen_cfg(small, "NeverDoneWithData")}, workers=2, timeout=1500, heap="2g",
-                      label="XzLayoutGen reachability witness")
-        if res["violated"] != "NeverDoneWithData":
-            raise ToolingError("XzLayoutGen cannot reach a complete file with data:\n" + res["out"][-2000:])
+                    covered.append(action_coverage(res["out"], need_all=False))
+        res = ctx.tlc_ok("XzLayoutGen", cfg="gen.cfg", data={"gen.cfg": gen_cfg(GEN_QUICK)}, workers=4, timeout=3000, heap="4g",
+                         label="XzLayoutGen generator (1 block x 2 chunks, stream padding)", coverage=True)
+        covered.insert(0, action_coverage(res["out"]))
         ctx.tlc_ok("LzmaAlone", cfg="lgen.cfg", data={"lgen.cfg": LGEN_CFG}, workers=2, timeout=1500, heap="2g", label="LzmaAlone generator")
         ctx.tlc_ok("LzmaExpansion", cfg="prob.cfg", data={"prob.cfg": PROB_CFG}, workers=2, timeout=1500, heap="2g",
                    label="LzmaExpansion ProbClamp + Window")
